@@ -49,7 +49,7 @@ RULE = ("(1) c20_lib: gen_alloc ready/readyplus for EVERY pair of 40 edge values
         "(4) c20_prog: the real sanitised binaries as child processes: every truncation point of valid SMTP/QMTP/QMQP/POP3/popup sessions, declared netstring lengths "
         "up to 2^31, 2^32, 2^64 and beyond followed by EOF, address lengths around every buffer size, thousands of recipients/tokens/commands, comment nesting to 50000, "
         "hostile .qmail files, %(nprog)s random mutations; qmail-local runs every .qmail case twice: with -n and in REAL delivery mode (message on a regular file, private home "
-        "with a Maildir, '|' lines through /bin/sh with PATH=/nonexistent, forwards through a stand-in qmail-queue, uid 65534 when root), plus a .qmail grammar: every first byte "
+        "with a Maildir, '|' lines through /bin/sh with PATH=/nonexistent, forwards through a stand-in qmail-queue, uid 65534 when root; a generated file with more than 100 mbox/maildir/program lines is run with -n only), plus a .qmail grammar: every first byte "
         "0..255 x {empty, address, blanks, blank+address} x {final newline, none} as a one-line file, 24 first bytes x 4 remainders in every position of 2..6-line files "
         "among harmless lines, 1..6 lines of the same shape, long lines around the 256-byte slurp buffer; qmail-inject also without -n (really queueing). "
         "(5) c20_ctl: histories of a running qmail-send in-process (real getcontrols / reread+regetcontrols / rewrite / stripvdomprepend, control.c, constmap.c): start-up, then "
